@@ -60,10 +60,33 @@ def run(ctx):
         max_it = rng.choice([1, 2, 5, 10])
         parallel = (not ctx.quick) and rng.random() < 0.05
         as_matrix = equal and rng.random() < 0.4
-        data = np.array(ss, dtype=float) if as_matrix else [np.array(s, dtype=float) for s in ss]
+        layout = rng.choice(["C", "C", "strided", "F"])
+        if as_matrix:
+            m_ = np.array(ss, dtype=float)
+            if layout == "F":
+                data = np.asfortranarray(m_)
+            elif layout == "strided":
+                wide = np.array([[(rng.choice(ss[rng.randrange(n)])) for _ in range(m_.shape[1] * 2)] for _ in range(n)], dtype=float)
+                wide[:, ::2] = m_
+                data = wide[:, ::2]
+            else:
+                data = m_
+        else:
+            data = []
+            for s_ in ss:
+                a_ = np.array(s_, dtype=float)
+                if layout == "strided":
+                    # filler drawn from the data itself: a stride-1 read stays plausible but is wrong
+                    wide = np.array([rng.choice(ss[rng.randrange(n)]) for _ in range(a_.shape[0] * 2)], dtype=float)
+                    wide[::2] = a_
+                    a_ = wide[::2]
+                elif layout == "F" and nd:
+                    a_ = np.asfortranarray(a_)
+                data.append(a_)
+        ctx.count("layout:" + layout)
         snapshot = [np.array(s, dtype=float) for s in ss]
         wit = dict(series=ss, k=k, options=dict(opts), init=init, seed=seed, drop_stddev=drop, max_it=max_it, ndim=nd, thr=None,
-                   parallel=parallel, container="matrix" if as_matrix else "list")
+                   parallel=parallel, container=("matrix" if as_matrix else "list") + "/" + layout)
         thr = rng.choice([0.0001, 0.0001, 0.05, 0.2, 0.5, 1.0])     # coarse thresholds stop on "no change in means"
         kwargs = dict(k=k, max_it=max_it, max_dba_it=rng.choice([1, 3, 10]), drop_stddev=drop, dists_options=dict(opts),
                       show_progress=False, thr=thr)
